@@ -20,6 +20,7 @@ mod c14;
 mod wb;
 mod c02;
 mod c05;
+mod c01;
 
 use common::*;
 use std::path::PathBuf;
@@ -57,6 +58,7 @@ fn main() {
         "c14" => c14::run(&mut out, tier, seed, replay),
         "c02" => c02::run(&mut out, tier, seed, replay),
         "c05" => c05::run(&mut out, tier, seed, replay),
+        "c01" => c01::run(&mut out, tier, seed, replay),
         _ => {
             eprintln!("unknown property {}", prop);
             std::process::exit(2);
